@@ -3,6 +3,7 @@ Spec-level SM2 operations (only `Spec.*`): available in both drivers.
 -/
 import Gmsm.Spec.SM2
 import Gmsm.Spec.DER
+import Gmsm.Model.X509Sig
 namespace Driver
 open Gmsm Spec.SM2
 
@@ -131,6 +132,17 @@ def sm2verifyder (args : List String) : String :=
       match Spec.DER.decSig sig with
       | some (r, s) => if r < 0 ∨ s < 0 then "0" else if verify x y defaultUid msg r.toNat s.toNat then "1" else "0"
       | none => "0"
+    | _, _, _, _ => "bad-op"
+  | _ => "bad-op"
+
+/-- `x509sigv <alg> <x> <y> <msg> <sig>` : `Certificate.CheckSignature(alg, msg, sig)` for a key on the SM2 curve, by the
+    model of the repaired `checkSignature` (Props.C09Sig.verifySM2_eq_spec: the same verdict as `sm2verifyder`) -/
+def x509sigv (args : List String) : String :=
+  match args with
+  | [alg, x, y, msg, sig] =>
+    if alg != "SM2WithSM3" && alg != "SM2WithSHA1" && alg != "SM2WithSHA256" then "bad-op" else
+    match natOf x, natOf y, ofHex msg, ofHex sig with
+    | some x, some y, some msg, some sig => if Model.X509Sig.verifySM2 x y msg sig then "1" else "0"
     | _, _, _, _ => "bad-op"
   | _ => "bad-op"
 
@@ -280,6 +292,7 @@ def sm2Dispatch (toks : List String) : Option String :=
   | "sm2verify" :: r => some (sm2verify r) | "sm2verifyder" :: r => some (sm2verifyder r)
   | "sm2enc" :: r => some (sm2enc r) | "sm2dec" :: r => some (sm2dec r)
   | "sm2verifye" :: r => some (sm2verifye r)
+  | "x509sigv" :: r => some (x509sigv r)
   | "tlssigv" :: k :: r => if k == "ecdsa" || k == "sm2" then some (sm2verifyder r) else some "bad-op"
   | "sm2signok" :: r => some (sm2signok r) | "sm2signderok" :: r => some (sm2signderok r)
   | "sm2obj" :: r => some (sm2obj sm2sign sm2verify sm2enc sm2dec r)
